@@ -3,6 +3,7 @@ package checks
 import (
 	"encoding/json"
 	"fmt"
+	"sort"
 	"strings"
 	"time"
 
@@ -120,6 +121,7 @@ func normDeadlock(s string) string {
 		}
 		out = append(out, role+"@"+rest)
 	}
+	sort.Strings(out) // thread numbering is an accident of the schedule
 	return strings.Join(out, ",")
 }
 
@@ -257,8 +259,8 @@ func init() {
 func runC20(c *Ctx) {
 	quick := c.Quick()
 	// bound(scenario, budget): quick = 1 everywhere and 2 for the first three scripts under the
-	// single-disturbance budgets; thorough = 2 everywhere and 3 for the first script under the
-	// single-disturbance budgets.
+	// single-disturbance budgets; thorough = 2 everywhere, 3 for the single-disturbance budgets and
+	// for every budget of the first three scripts, 4 for the first script under single disturbances.
 	Pmax := 2
 	bound := func(si, bi int) int {
 		if quick {
@@ -267,7 +269,10 @@ func runC20(c *Ctx) {
 			}
 			return 1
 		}
-		if si == 0 && bi < 2 {
+		switch {
+		case si == 0 && bi < 2:
+			return 4
+		case bi < 2, si < 3:
 			return 3
 		}
 		return 2
@@ -275,7 +280,7 @@ func runC20(c *Ctx) {
 	if quick {
 		c.Deadline = c.Start.Add(8 * time.Minute)
 	} else {
-		Pmax = 3
+		Pmax = 4
 		c.Deadline = c.Start.Add(150 * time.Minute)
 	}
 	P := Pmax
